@@ -3,13 +3,13 @@
  "name": "p2_check_dotdot_converge",
  "props": ["C01"],
  "level": "U",
- "tier": "wip",
+ "tier": "quick",
  "harness": "h_dotdot_converge",
  "includes": ["e2fsck", "lib/support"],
  "sources": ["lib/ext2fs/dir_iterate.c"],
  "functions": ["e2fsck/pass2.c:check_dotdot"],
  "assumes": ["directory scan buffer of 2 x 1024 bytes as allocated by e2fsck_pass2, the block (first half) arbitrary; fs->blocksize 1024 (rec_len is stored undecoded for every block size < 64 KiB)",
-	     "the entry is at an arbitrary offset and satisfies exactly what check_dir_block has verified before the call (offset+rec_len within the block, rec_len >= 12, rec_len % 4 == 0, name fits in rec_len)",
+	     "the entry is at an arbitrary offset of the block (tail view, see p2_common.h: the scan buffer is presented as the 1036-byte tail starting at the entry; accesses outside it would fail the pointer checks) and satisfies exactly what check_dir_block has verified before the call (offset+rec_len within the block, rec_len >= 12, rec_len % 4 == 0, name fits in rec_len)",
 	     "fix_problem is a stub that logs the code and answers yes in the first run, IN.choice in the second",
 	     "e2fsck_dir_info_set_dotdot is a stub (records its arguments); it finds the directory's dir_info in both runs (pass 1 registers every directory whose blocks are in the dblist; the failure is PR_2_NO_DIRINFO, a fatal internal error)"],
  "backend": "cadical",
@@ -21,7 +21,7 @@
  "name": "p2_check_dotdot_detect",
  "props": ["C02"],
  "level": "U",
- "tier": "wip",
+ "tier": "quick",
  "harness": "h_dotdot_detect",
  "enforce": ["check_dotdot"],
  "includes": ["e2fsck", "lib/support"],
@@ -39,8 +39,9 @@
  "name": "p2_check_dotdot_sound",
  "props": ["C05"],
  "level": "U",
- "tier": "wip",
+ "tier": "quick",
  "harness": "h_dotdot_sound",
+ "enforce": ["check_dotdot"],
  "includes": ["e2fsck", "lib/support"],
  "sources": ["lib/ext2fs/dir_iterate.c"],
  "functions": ["e2fsck/pass2.c:check_dotdot"],
@@ -57,7 +58,7 @@
  "name": "p2_check_dotdot_greyzone",
  "props": ["C05"],
  "level": "U",
- "tier": "wip",
+ "tier": "quick",
  "harness": "h_dotdot_grey",
  "enforce": ["check_dotdot"],
  "includes": ["e2fsck", "lib/support"],
@@ -74,7 +75,7 @@
  "name": "p2_check_dotdot_inline",
  "props": ["C05"],
  "level": "U",
- "tier": "wip",
+ "tier": "quick",
  "harness": "h_dotdot_inline",
  "enforce": ["check_dotdot"],
  "includes": ["e2fsck", "lib/support"],
@@ -112,16 +113,15 @@ void h_dotdot_converge(void)
 	int r1, r2;
 
 	LOAD_IN();
-	ASSUME(IN.off <= P2_BS - 12u);
-	p2_setup(&w, P2_YES, IN.off);
-	ASSUME(p2_callsite_ok(IN.blk, IN.off));
+	p2_setup(&w, P2_YES, P2_VIEW_TAIL);
+	ASSUME(p2_callsite_ok(IN.blk, w.off));
 	ASSUME(!IN.dirinfo_fail);
 
 	r1 = check_dotdot(w.ctx, w.dirent, IN.ino, &w.pctx);
 	if (r1) REACH("first run repaired something");
 	CHECK(r1 == (p2_nlog != 0), "answer yes: 'modified' is reported exactly when a problem was raised");
-	CHECK(p2_callsite_ok(w.buf, IN.off), "repaired '..' entry is still a well-delimited entry");
-	CHECK(P2F_DOTDOT_FORMAT_OK(w.buf, IN.off), "after the accepted repair the entry is a format-valid '..'");
+	CHECK(p2_callsite_ok(w.buf, w.off), "repaired '..' entry is still a well-delimited entry");
+	CHECK(P2F_DOTDOT_FORMAT_OK(w.buf, 0), "after the accepted repair the entry is a format-valid '..'");
 
 	b1 = w.buf[IN.k];
 	p2_clear_log();
@@ -130,7 +130,7 @@ void h_dotdot_converge(void)
 	CHECK(p2_nlog == 0, "second run raises no problem");
 	CHECK(r2 == 0, "second run reports 'not modified'");
 	CHECK(w.buf[IN.k] == b1, "second run leaves every byte of the scan buffer unchanged");
-	CHECK(p2_dotdot_calls >= 1 && p2_dotdot_ino == IN.ino && p2_dotdot_val == P2F_INO(w.buf, IN.off),
+	CHECK(p2_dotdot_calls >= 1 && p2_dotdot_ino == IN.ino && p2_dotdot_val == P2F_INO(w.buf, 0),
 	      "the '..' target recorded for pass 3 is the one in the entry");
 	REACH("end");
 }
@@ -142,10 +142,9 @@ void h_dotdot_detect(void)
 	int r;
 
 	LOAD_IN();
-	ASSUME(IN.off <= P2_BS - 12u);
-	p2_setup(&w, P2_NO, IN.off);
-	ASSUME(p2_callsite_ok(IN.blk, IN.off));
-	ASSUME(!P2F_DOTDOT_FORMAT_OK(IN.blk, IN.off));
+	p2_setup(&w, P2_NO, P2_VIEW_TAIL);
+	ASSUME(p2_callsite_ok(IN.blk, w.off));
+	ASSUME(!P2F_DOTDOT_FORMAT_OK(IN.blk, 0));
 
 	r = check_dotdot(w.ctx, w.dirent, IN.ino, &w.pctx);
 	CHECK(p2_nserious >= 1, "a malformed '..' raises at least one problem without PR_NO_OK");
@@ -161,17 +160,16 @@ void h_dotdot_sound(void)
 	int r;
 
 	LOAD_IN();
-	ASSUME(IN.off <= P2_BS - 12u);
-	p2_setup(&w, P2_CHOICE, IN.off);
-	ASSUME(p2_callsite_ok(IN.blk, IN.off));
-	ASSUME(P2F_DOTDOT_HEALTHY(IN.blk, IN.off));
+	p2_setup(&w, P2_CHOICE, P2_VIEW_TAIL);
+	ASSUME(p2_callsite_ok(IN.blk, w.off));
+	ASSUME(P2F_DOTDOT_HEALTHY(IN.blk, 0));
 	ASSUME(!IN.dirinfo_fail);
 
 	r = check_dotdot(w.ctx, w.dirent, IN.ino, &w.pctx);
 	CHECK(p2_nlog == 0, "healthy '..': no problem raised");
 	CHECK(r == 0, "healthy '..': reported as not modified");
 	CHECK(w.buf[IN.k] == w.b0, "healthy '..': no byte of the scan buffer changes");
-	CHECK(p2_dotdot_calls == 1 && p2_dotdot_ino == IN.ino && p2_dotdot_val == P2F_INO(IN.blk, IN.off),
+	CHECK(p2_dotdot_calls == 1 && p2_dotdot_ino == IN.ino && p2_dotdot_val == P2F_INO(IN.blk, 0),
 	      "the '..' target is recorded for pass 3");
 	REACH("end");
 }
@@ -183,15 +181,14 @@ void h_dotdot_grey(void)
 	int r;
 
 	LOAD_IN();
-	ASSUME(IN.off <= P2_BS - 12u);
-	p2_setup(&w, P2_CHOICE, IN.off);
-	ASSUME(p2_callsite_ok(IN.blk, IN.off));
-	ASSUME(P2F_DOTDOT_FORMAT_OK(IN.blk, IN.off));
+	p2_setup(&w, P2_CHOICE, P2_VIEW_TAIL);
+	ASSUME(p2_callsite_ok(IN.blk, w.off));
+	ASSUME(P2F_DOTDOT_FORMAT_OK(IN.blk, 0));
 	ASSUME(!IN.dirinfo_fail);
 
 	r = check_dotdot(w.ctx, w.dirent, IN.ino, &w.pctx);
 	CHECK(p2_nlog <= 1, "at most one question");
-	CHECK(p2_nlog == 0 || (p2_log[0] == PR_2_DOT_DOT_NULL_TERM && P2F_NAME(IN.blk, IN.off, 2) != 0),
+	CHECK(p2_nlog == 0 || (p2_log[0] == PR_2_DOT_DOT_NULL_TERM && P2F_NAME(IN.blk, 0, 2) != 0),
 	      "format-valid '..': only the NUL-termination convention can be raised, and only when the byte is not NUL");
 	if (p2_nlog) REACH("grey zone is not empty");
 	CHECK(r != 0 || w.buf[IN.k] == w.b0, "'not modified' means no byte changed");
@@ -207,7 +204,7 @@ void h_dotdot_inline(void)
 	unsigned parent;
 
 	LOAD_IN();
-	p2_setup(&w, P2_CHOICE, 0);
+	p2_setup(&w, P2_CHOICE, P2_VIEW_BLOCK0);
 	ASSUME(!IN.dirinfo_fail);
 	parent = ((struct ext2_dir_entry *) w.buf)->inode;
 	ASSUME(parent != 0);
